@@ -10,12 +10,11 @@
 (***************************************************************************)
 EXTENDS AudioRead, TLC, Json, IOUtils
 Tr == ndJsonDeserialize(IOEnv.TRACE)
-VARIABLES l, scn, setup, cms, n
-vars == <<l, scn, setup, cms, n>>
+VARIABLES l, scn, setup, cms, n, rbits        \* rbits[k] = bits the strict reader counted for audio packet k of the scenario (0: not read)
+vars == <<l, scn, setup, cms, n, rbits>>
 Report(rules, e) == IF rules = {} THEN TRUE ELSE PrintT("VIOL " \o ToJson([line |-> l, scn |-> Tr[scn].scn, ev |-> e.e, rules |-> rules]))
 NoSetup == [ok |-> FALSE]
-Judge(e) ==
-  LET r == TLCEval(ReadAudio(setup.s, cms, e.pbytes)) IN
+JudgeR(e, r) ==
   IF e.cut = 1 THEN {}                                                    \* truncated or padded by the rate manager: not a plain packet (Bitrate.tla decides when that may happen)
   ELSE (IF r.ok THEN {} ELSE {"AudioPacketParses"}) \cup
        (IF r.ok /\ ~(r.bits <= 8 * Len(e.pbytes) /\ r.bits > 8 * (Len(e.pbytes) - 1)) THEN {"AudioPacketEndsInItsLastByte"} ELSE {}) \cup
@@ -28,19 +27,25 @@ HeaderRules(e, id, r) ==
         ELSE (IF r.bits > 8 * (Len(e.setupbytes) - 1) THEN {} ELSE {"SetupHeaderHasNoTrailingBytes"}) \cup
              (IF IdOK(r.s) /\ SetupOK(r.s) THEN {} ELSE {"SetupHeaderWellFormed"}) \cup
              (IF PrintT("PARSED " \o ToJson([books |-> Len(r.s.books), floors |-> Len(r.s.floors), residues |-> Len(r.s.residues), maps |-> Len(r.s.maps), modes |-> Len(r.s.modes), bits |-> r.bits])) THEN {} ELSE {}))
-Init == l = 1 /\ scn = 1 /\ setup = NoSetup /\ cms = <<>> /\ n = 0
+Init == l = 1 /\ scn = 1 /\ setup = NoSetup /\ cms = <<>> /\ n = 0 /\ rbits = <<>>
 Next ==
   /\ l <= Len(Tr)
   /\ LET e == Tr[l] IN
-     CASE e.e = "Reset" -> scn' = l /\ l' = l + 1 /\ setup' = NoSetup /\ cms' = <<>> /\ UNCHANGED n
+     CASE e.e = "Reset" -> scn' = l /\ l' = l + 1 /\ setup' = NoSetup /\ cms' = <<>> /\ rbits' = <<>> /\ UNCHANGED n
        [] e.e = "HeaderOut" /\ "setupbytes" \in DOMAIN e ->
             LET id == TLCEval(ReadId(e.idbytes))  r == TLCEval(IF id.ok THEN ReadSetup(e.setupbytes, id) ELSE NoSetup) IN
             /\ Report(HeaderRules(e, id, r), e)
             /\ setup' = r /\ cms' = (IF r.ok THEN [b \in 1..Len(r.s.books) |-> CwMap(r.s.books[b].lens)] ELSE <<>>)
-            /\ l' = l + 1 /\ UNCHANGED <<scn, n>>
-       [] e.e = "Pkt" /\ "pbytes" \in DOMAIN e /\ setup.ok -> Report(Judge(e), e) /\ n' = n + 1 /\ l' = l + 1 /\ UNCHANGED <<scn, setup, cms>>
-       [] e.e = "End" -> PrintT("PACKETS " \o ToString(n)) /\ n' = 0 /\ l' = l + 1 /\ UNCHANGED <<scn, setup, cms>>
-       [] OTHER -> l' = l + 1 /\ UNCHANGED <<scn, setup, cms, n>>
+            /\ l' = l + 1 /\ UNCHANGED <<scn, n, rbits>>
+       [] e.e = "Pkt" /\ "pbytes" \in DOMAIN e /\ setup.ok ->
+            LET r == TLCEval(ReadAudio(setup.s, cms, e.pbytes)) IN
+            /\ Report(JudgeR(e, r), e) /\ n' = n + 1 /\ l' = l + 1
+            /\ rbits' = (IF e.cut = 0 /\ r.ok /\ e.k + 1 = Len(rbits) + 1 THEN Append(rbits, r.bits) ELSE rbits) /\ UNCHANGED <<scn, setup, cms>>
+       \* the real decoder on the same packet: it must have consumed exactly the bits the specification defines (full-rate decode of the packets as emitted)
+       [] e.e = "DecPkt" /\ e.k + 1 <= Len(rbits) /\ e.rs = 0 ->
+            Report(IF e.used = rbits[e.k + 1] THEN {} ELSE {"DecoderConsumesWhatTheSpecificationDefines"}, e) /\ l' = l + 1 /\ UNCHANGED <<scn, setup, cms, n, rbits>>
+       [] e.e = "End" -> PrintT("PACKETS " \o ToString(n)) /\ n' = 0 /\ l' = l + 1 /\ UNCHANGED <<scn, setup, cms, rbits>>
+       [] OTHER -> l' = l + 1 /\ UNCHANGED <<scn, setup, cms, n, rbits>>
 Spec == Init /\ [][Next]_vars
 TypeOK == l >= 1
 Accepted == TLCGet("stats").diameter = Len(Tr) + 1
